@@ -39,6 +39,12 @@ pub fn run(args: &[String]) -> i32 {
     let mut violations: BTreeMap<String, (u64, Value)> = BTreeMap::new();
     let mut samples: Vec<Value> = Vec::new();
     let f = std::io::BufReader::new(std::fs::File::open(walks).expect("walks"));
+    // jobs: every walk x content policy, then every boundary content of the pool inside a host message of its own
+    // (the rotation of pool contents over the walks reaches each content only by chance; a value such as a statement
+    // line without customer reference must meet the JSON codec in every run)
+    struct Job { mt: String, raw: Value, policy: usize, text: String, nfields: usize }
+    let mut jobs: Vec<Job> = Vec::new();
+    let mut hosts: BTreeMap<String, (String, Vec<(String, String)>, usize)> = BTreeMap::new();
     for (case_id, line) in f.lines().map_while(|l| l.ok()).enumerate() {
         let v: Value = match serde_json::from_str(&line) { Ok(v) => v, Err(_) => continue };
         let c = parse_case(v);
@@ -46,13 +52,42 @@ pub fn run(args: &[String]) -> i32 {
         for policy in 0..policies {
             let fields = match concretise_salted(&contents, &c.toks, policy, case_id) { Some(f) => f, None => continue };
             let text = full_message(&c.mt, &block4_text(&fields));
+            if policy == 0 && session::typed(&c.mt, &text).is_ok() {
+                for (i, (tag, _)) in fields.iter().enumerate() {
+                    hosts.entry(tag.clone()).or_insert_with(|| (c.mt.clone(), fields.clone(), i));
+                }
+            }
+            jobs.push(Job { mt: c.mt.clone(), raw: c.raw.clone(), policy, text, nfields: fields.len() });
+        }
+    }
+    let mut pool_jobs = 0u64;
+    for (tag, list) in contents.pool.iter() {
+        if let Some((mt, base, pos)) = hosts.get(tag) {
+            for content in list {
+                let mut fields = base.clone();
+                fields[*pos].1 = content.clone();
+                jobs.push(Job { mt: mt.clone(), raw: json!({"pool": tag, "content": content}), policy: 0, text: full_message(mt, &block4_text(&fields)), nfields: fields.len() });
+                pool_jobs += 1;
+            }
+        }
+    }
+    for job in jobs {
+        let c = &job;
+        {
+            let (policy, text) = (job.policy, job.text.clone());
             let ty = match session::typed(&c.mt, &text) { Ok(t) => t, Err(_) => continue };
             evaluated += 1;
-            if fields.len() > 4 { nontrivial += 1; }
+            if job.nfields > 4 { nontrivial += 1; }
             let replay = json!({"kind": "json", "mt": c.mt, "case": c.raw, "policy": policy, "text": text});
+            // (a boundary content placed in a host names itself in the signature)
+            let suffix = match (c.raw["pool"].as_str(), c.raw["content"].as_str()) {
+                (Some(t), Some("")) => format!("|pool:{}:empty", t),
+                (Some(t), _) => format!("|pool:{}", t),
+                _ => String::new(),
+            };
             let mut hit = |sig: String, detail: Value| {
                 let mut r = replay.clone(); r["detail"] = detail;
-                let e = violations.entry(sig).or_insert((0, r)); e.0 += 1;
+                let e = violations.entry(format!("{}{}", sig, suffix)).or_insert((0, r)); e.0 += 1;
             };
             // JSON -> message -> JSON / MT
             match &ty.json_roundtrip {
@@ -74,7 +109,7 @@ pub fn run(args: &[String]) -> i32 {
             let mut bad = Vec::new();
             scan(&ty.json["fields"], "", "", &mut bad);
             for b in bad { hit(format!("C08|MT{}|{}", c.mt, b), json!({})); }
-            if samples.len() < 3 && fields.len() > 10 { samples.push(json!({"mt": c.mt, "text": text})); }
+            if samples.len() < 3 && job.nfields > 10 { samples.push(json!({"mt": c.mt, "text": text})); }
         }
     }
     // envelope variety: the hand-written header codecs (input / output application header, all
@@ -153,6 +188,6 @@ pub fn run(args: &[String]) -> i32 {
     }
     let violations: Vec<Value> = violations.iter().map(|(sig, (n, r))| json!({"sig": sig, "count": n, "replay": r})).collect();
     std::fs::write(out_path, json!({"evaluated": evaluated, "field_level": field_eval, "distinct_nontrivial": nontrivial,
-        "violations": violations, "samples": samples}).to_string()).expect("write");
+        "pool_contents_in_hosts": pool_jobs, "violations": violations, "samples": samples}).to_string()).expect("write");
     0
 }
